@@ -32,7 +32,7 @@ ASSUMPTIONS = ['process death is modelled by SIGKILL at system-call entry (no po
 ANCHORS = {'tenpy/simulations/simulation.py': ['save_results', 'fix_output_filenames', 'get_backup_filename', 'save_at_checkpoint',
                                                'from_saved_checkpoint', 'resume_run']}
 REQUIRED_COUNTERS = {'crash.runs': 40, 'crash.killed': 30, 'crash.after_first_save': 20, 'crash.files_loaded': 30, 'resume.runs': 8,
-                     'resume.compared': 8, 'second.runs': 10, 'second.killed': 8}
+                     'resume.compared': 8, 'second.runs': 10, 'second.killed': 8, 'second.mode.clean': 4, 'second.mode.partial': 4}
 
 TRACE_SET = ('openat,open,creat,write,pwrite64,writev,pwritev,rename,renameat,renameat2,unlink,unlinkat,ftruncate,truncate,close,'
              'fsync,fdatasync,link,linkat')
@@ -48,9 +48,9 @@ def plan(tier, seed, jobs):
     resume = shard('compiled', 15 if q else 40, 5, part='resume', timeout=3000, time_budget=200 if q else 1700)
     for k, u in enumerate(resume):
         u['scn'] = k % 5
-    second = shard('compiled', 24 if q else 200, 2, part='second', timeout=3000, time_budget=200 if q else 1700)
+    second = shard('compiled', 44 if q else 240, 4, part='second', timeout=3000, time_budget=200 if q else 1700)
     for k, u in enumerate(second):
-        u['scn'] = k % 2
+        u['scn'], u['half'] = k % 2, k // 2
     return crash + resume + second
 
 
@@ -68,6 +68,10 @@ def sim_spec(name):
         base['algorithm_class'] = 'TwoSiteDMRGEngine' if name.startswith('dmrg2') else 'SingleSiteDMRGEngine'
         base['algorithm_params'] = {'trunc_params': {'chi_max': 6, 'svd_min': 1e-10}, 'max_sweeps': 4, 'min_sweeps': 4, 'N_sweeps_check': 1,
                                     'mixer': None}
+        if name.startswith('dmrg2'):
+            # one measurement per checkpoint: a duplicated / lost one shows in the history (not with a mixer: the default
+            # measurements need diagonal singular values and report errors while the mixer is on)
+            base['measure_at_algorithm_checkpoints'] = True
         if name.startswith('dmrg1'):
             # with a mixer (checkpoints hold a 2D "S" while it is on)
             base['algorithm_params'].update({'mixer': True, 'mixer_params': {'amplitude': 1e-3, 'disable_after': 2}})
@@ -342,24 +346,35 @@ def case_second(ctx, i):
     name = SCENARIOS[ctx.unit.get('scn', i % 2) * 2]  # dmrg2_pkl / tebd_pkl
     ref = reference(ctx, name)
     n = len(ref['ckpts'])
-    j = i - ctx.unit.get('lo', 0) if 'scn' in ctx.unit else i // 2
-    c = 1 + (j // 8 + ctx.seed) % (n - 2)  # (the first save of the resumed run has 8 file-system calls on the two files)
+    j = (i - ctx.unit.get('lo', 0)) * 2 + ctx.unit.get('half', 0) if 'scn' in ctx.unit else i // 2
+    c = 1 + (j // 22 + ctx.seed) % (n - 2)  # (the first save of the resumed run has 8-11 file-system calls on the two files)
     wd = tempfile.mkdtemp(prefix='s-', dir=ctx._root)
     ext = ref['ext']
     try:
         out_fn, bak_fn = os.path.join(wd, 'out' + ext), os.path.join(wd, 'out.backup' + ext)
-        shutil.copy(ref['ckpts'][c - 1], bak_fn)
-        data = open(ref['ckpts'][c], 'rb').read()
-        open(out_fn, 'wb').write(data[:len(data) // 2])  # what a kill in the middle of the write of checkpoint c+1 leaves
-        # crash points of the first save of the resumed run: trace it once per (scenario, c) ...
-        key = ('second', name, c)
+        # two file sets a first interruption can leave:
+        #   'partial': killed in the middle of the write of checkpoint c+1 -> partial output + complete backup; resume from the backup
+        #   'clean'  : killed between two saves -> complete output of checkpoint c, no backup; resume from the output file
+        mode = 'partial' if j % 22 < 9 else 'clean'
+        if mode == 'partial':
+            shutil.copy(ref['ckpts'][c - 1], bak_fn)
+            data = open(ref['ckpts'][c], 'rb').read()
+            open(out_fn, 'wb').write(data[:len(data) // 2])
+            resume_fn = bak_fn
+        else:
+            shutil.copy(ref['ckpts'][c - 1], out_fn)
+            resume_fn = out_fn
+        # crash points of the first save of the resumed run: trace it once per (scenario, c, mode) ...
+        key = ('second', name, c, mode)
         if key not in ctx._refs:
             wt = tempfile.mkdtemp(prefix='st-', dir=ctx._root)
             o2, b2 = os.path.join(wt, 'out' + ext), os.path.join(wt, 'out.backup' + ext)
-            shutil.copy(bak_fn, b2)
+            if os.path.exists(bak_fn):
+                shutil.copy(bak_fn, b2)
             shutil.copy(out_fn, o2)
             log = os.path.join(wt, 'strace.log')
-            rc, out, err = child(wt, 'resume', {'record': False, 'resume_from': b2}, strace={'paths': [o2, b2], 'log': log})
+            rc, out, err = child(wt, 'resume', {'record': False, 'resume_from': b2 if mode == 'partial' else o2},
+                                 strace={'paths': [o2, b2], 'log': log})
             if rc != 0:
                 ctx.violation('second:resume-from-backup-fails', (out + err)[-900:], {'scenario': name, 'checkpoint': c})
                 ctx._refs[key] = []
@@ -367,27 +382,30 @@ def case_second(ctx, i):
                 # only the calls up to the end of the first save
                 counts = collections.Counter()
                 pts = []
-                closes_after_write = 0
-                wrote = False
+                renamed = False
                 for line in open(log):
                     m = re.match(r'^\d+\s+(\w+)\(', line)
                     if not m or 'resumed' in line:
                         continue
                     counts[m.group(1)] += 1
                     pts.append((m.group(1), counts[m.group(1)]))
-                    if m.group(1) in ('write', 'pwrite64'):
-                        wrote = True
-                    if wrote and m.group(1) in ('unlink', 'unlinkat'):
-                        break  # the unlink of the backup ends the first save
+                    if m.group(1) in ('rename', 'renameat', 'renameat2'):
+                        renamed = True
+                    if renamed and m.group(1) in ('unlink', 'unlinkat'):
+                        break  # the unlink of the backup after the rename ends the first save
+                    if len(pts) >= 40:
+                        break
                 ctx._refs[key] = pts
             shutil.rmtree(wt, ignore_errors=True)
         pts = ctx._refs[key]
         if not pts:
             raise _Skip()
-        sc, k = pts[j % len(pts)]
-        case = {'scenario': name, 'first_crash_left': 'partial output of checkpoint %d + complete backup of checkpoint %d' % (c + 1, c),
+        sc, k = pts[(j % 22 if mode == 'partial' else j % 22 - 9) % len(pts)]
+        case = {'scenario': name, 'first_interruption_left': ('partial output of checkpoint %d + complete backup of checkpoint %d' % (c + 1, c))
+                if mode == 'partial' else 'complete output of checkpoint %d, no backup' % c, 'resumed_from': os.path.basename(resume_fn),
                 'syscall': sc, 'occurrence': k}
-        rc, out, err = child(wd, 'resume', {'record': False, 'resume_from': bak_fn},
+        ctx.count('second.mode.' + mode)
+        rc, out, err = child(wd, 'resume', {'record': False, 'resume_from': resume_fn},
                              strace={'paths': [out_fn, bak_fn], 'log': os.path.join(wd, 'strace.log'), 'inject': (sc, k)})
         ctx.count('second.runs')
         if rc == 0:
@@ -402,11 +420,15 @@ def case_second(ctx, i):
         case['files'] = {kk: (list(v) if v else None) for kk, v in files.items()}
         case['saves_completed'] = n_saved(out)
         if not valid:
-            ctx.violation('second-crash:no-complete-results-file-left', 'the only complete file (backup of checkpoint %d) was destroyed before a '
-                          'new complete file existed: %r' % (c, case['files']), case)
+            if mode == 'partial':
+                ctx.violation('second-crash:no-complete-results-file-left', 'the only complete file (backup of checkpoint %d) was destroyed '
+                              'before a new complete file existed: %r' % (c, case['files']), case)
+            else:
+                ctx.violation('crash-after-resume:no-complete-results-file-left', 'resumed from the complete output of checkpoint %d; killed '
+                              'during the first save of the resumed run: %r' % (c, case['files']), case)
         elif max(valid) < c + n_saved(out):
             ctx.violation('second-crash:only-an-older-checkpoint-left', '%r' % case['files'], case)
-        ctx.sig((name, 'second', c, sc, k), nontrivial=True)
+        ctx.sig((name, 'second', mode, c, sc, k), nontrivial=True)
         if j % 6 == 0:
             ctx.sample(case)
     finally:
